@@ -101,6 +101,76 @@ def events(seed):
     if exc == "none":
         yield {"op": "is_push_pop", "pda": ab.pda(P), "res": bool(v), "src": src}
 
+    # right-linear grammar -> DFA (deterministic ones only: one move per (variable, letter))
+    det = []
+    seen = set()
+    for lhs, rhs in right_linear(rng):
+        if len(rhs) == 2 and (lhs, rhs[0]) in seen:
+            continue
+        if len(rhs) == 1:
+            continue                       # unit rules are not transitions of a DFA
+        if len(rhs) == 2:
+            seen.add((lhs, rhs[0]))
+        det.append((lhs, rhs))
+    if not any(l == "S" for l, _ in det):
+        det.insert(0, ("S", ""))
+    i = next(i for i, (l, _) in enumerate(det) if l == "S")
+    det.insert(0, det.pop(i))
+    H2 = U.make_cfg(det, Sigma="ab")
+    D3, exc = guarded(lambda: ca.cfg_to_dfa(H2, False))
+    if exc == "none":
+        # cfg_to_dfa(check_validity=False) may return a partial DFA: it is judged as an automaton (missing move = reject)
+        yield {"op": "cfg_to_fa", "kind": "nfa", "via": "cfg_to_dfa", "cfg": ab.cfg(H2), "exc": exc, "n": 3, "src": src,
+               "res": ab.dfa(D3)}
+    # automata_checker for NFAs
+    N3 = U.random_nfa(rng, rng.randint(1, 3), "ab", eps="ε", prefix="q")
+    lang3 = na.nfa_words_up_to_n(N3, n)
+    if rng.random() < 0.5 and lang3:
+        lang3 = set(lang3) - {rng.choice(sorted(lang3))}
+    elif rng.random() < 0.3:
+        lang3 = set(lang3) | {"abab"[: rng.randint(1, 3)]}
+    trans3 = [(p, a, q) for (p, a), qs in N3.delta.items() for q in qs]
+    res, exc = guarded(lambda: ac.check_nfa_for_given_language(set(N3.Q), trans3, {N3.q0}, set(N3.F),
+                                                               " ".join(w if w else "ε" for w in sorted(lang3)), n))
+    if exc == "none":
+        yield {"op": "automata_checker", "fa": ab.nfa(N3), "expected": ab.words(lang3), "n": n,
+               "correct": bool(res["correct"]), "src": src}
+    # the notebook's convenience wrappers: text in, answer out
+    import io, contextlib
+    import gambatools.notebook as nb
+    from . import chk
+    kind = rng.choice(["dfa", "nfa", "re", "cfg", "pda", "tm"])
+    X, pr, _, absfn, _ = chk._kind_obj(rng, kind)
+    fn = {"dfa": nb.dfa_language, "nfa": nb.nfa_language, "re": nb.regexp_language, "cfg": nb.cfg_language,
+          "pda": nb.pda_language, "tm": nb.tm_language}[kind]
+    length = rng.randint(0, 3)
+    buf = io.StringIO()
+
+    def call_lang():
+        with contextlib.redirect_stdout(buf):
+            return fn(pr(X), length)
+    representable = kind != "pda" or all(len(str(g)) == 1 for g in X.Gamma)   # the text format has one-character symbols
+    txt, exc = guarded(call_lang) if representable else (None, "none")
+    if not representable:
+        pass
+    elif exc == "none" and isinstance(txt, str) and txt.startswith("{") and txt.endswith("}"):
+        ws = [w for w in txt[1:-1].split(", ") if w != ""]
+        yield {"op": "nb_language", "kind": kind, "obj": absfn(X), "length": length,
+               "words": [ab.word("" if w == "ε" else w) for w in ws], "exc": "none", "src": src}
+    elif exc != "none" or txt is None:
+        yield {"op": "nb_language", "kind": kind, "obj": absfn(X), "length": length, "words": [],
+               "exc": exc if exc != "none" else "Error_" + ab.enc(buf.getvalue()[:60]), "src": src}
+    kind2 = rng.choice(["nfa", "re"])
+    Y, prY, _, absY, _ = chk._kind_obj(rng, kind2)
+    w = "".join(rng.choice("ab") for _ in range(rng.randint(0, 4)))
+    res, exc = guarded(lambda: (nb.nfa_accepts if kind2 == "nfa" else nb.regexp_accepts)(prY(Y), w))
+    if exc == "none" and res is not None:
+        yield {"op": "nb_accepts", "kind": kind2, "obj": absY(Y), "word": ab.word(w), "res": bool(res), "exc": "none", "src": src}
+    N4 = U.random_nfa(rng, rng.randint(1, 4), "ab", eps="ε", prefix="q")
+    cnt = len(N4.Q) + rng.choice([0, 0, 1, -1])
+    v, _, exc, out = chk.run_checker(nb.check_number_of_nfa_states, na.print_nfa(N4), cnt)
+    yield {"op": "nb_count", "obj": ab.nfa(N4), "count": cnt, "verdict": v, "exc": exc, "src": src}
+
 
     # fresh names
     rng = random.Random(seed + 5)
